@@ -604,10 +604,57 @@ class RT:
         raise Refuse("real expression node %s" % k)
 
 
+def is_wide_guard(s, ps):
+    """`if (!std::isfinite(sup - min)) return 2 * between(min / 2, sup / 2);`"""
+    if s.get("kind") != "IfStmt" or len(kids(s)) != 2:
+        return False
+    c, th = kids(s)
+    c = strip(c)
+    if c.get("kind") != "UnaryOperator" or c.get("opcode") != "!":
+        return False
+    f = strip(kids(c)[0])
+    if f.get("kind") != "CallExpr" or callee(f) != "isfinite" or len(call_args(f)) != 1:
+        return False
+    d = strip(call_args(f)[0])
+    if not (d.get("kind") == "BinaryOperator" and d.get("opcode") == "-" and is_ref(kids(d)[0], ps[1]) and
+            is_ref(kids(d)[1], ps[0])):
+        return False
+    tb = block(th)
+    if len(tb) != 1 or tb[0].get("kind") != "ReturnStmt":
+        return False
+    r = strip(kids(tb[0])[0])
+    if r.get("kind") != "BinaryOperator" or r.get("opcode") != "*":
+        return False
+    two, call = [strip(x) for x in kids(r)]
+    while two.get("kind") == "ImplicitCastExpr":
+        two = strip(kids(two)[0])
+    if two.get("kind") not in ("IntegerLiteral", "FloatingLiteral") or float(two.get("value")) != 2.0:
+        return False
+    if call.get("kind") != "CallExpr" or callee(call) != "between" or len(call_args(call)) != 2:
+        return False
+
+    def half(n, nm):
+        n = strip(n)
+        if n.get("kind") != "BinaryOperator" or n.get("opcode") != "/" or not is_ref(kids(n)[0], nm):
+            return False
+        t = strip(kids(n)[1])
+        while t.get("kind") == "ImplicitCastExpr":
+            t = strip(kids(t)[0])
+        return t.get("kind") in ("IntegerLiteral", "FloatingLiteral") and float(t.get("value")) == 2.0
+    a = call_args(call)
+    return half(a[0], ps[0]) and half(a[1], ps[1])
+
+
 def rand_real(docs):
     fb = fn_inst(docs, "between", "double")
     ps = [p["name"] for p in kids(fb) if p.get("kind") == "ParmVarDecl"]
     ss = stmts(body_of(fb))
+    out = {"halvesWhenWide": False}
+    if ss and ss[0].get("kind") == "IfStmt":
+        if not is_wide_guard(ss[0], ps):
+            raise Refuse("between<double>: leading `if` is not the wide-interval guard")
+        out["halvesWhenWide"] = True
+        ss = ss[1:]
     if len(ss) < 2 or ss[-1].get("kind") != "ReturnStmt":
         raise Refuse("between<double>: no final return")
     nm, d, ini = var_decl(ss[0])
@@ -620,7 +667,7 @@ def rand_real(docs):
     if c.get("kind") != "CXXConstructExpr" or len(a) != 2:
         raise Refuse("between<double>: distribution not constructed from two arguments")
     rt = RT(pars={ps[0]: 0, ps[1]: 1}, dist=nm)
-    out = {"ctorA": rt.e(a[0]), "ctorB": rt.e(a[1])}
+    out.update({"ctorA": rt.e(a[0]), "ctorB": rt.e(a[1])})
     for s in ss[1:-1]:                       # const locals naming sub-expressions
         n2, d2, i2 = var_decl(s)
         if "const" not in d2.get("type", {}).get("qualType", ""):
@@ -1357,8 +1404,8 @@ def render(o):
         L.append("def %s : RandInt :=\n  { ty := .%s, betA := %s, betB := %s,\n    supA := %s, supB := %s,\n    inA := %s, inB := %s }\n"
                  % (nm, r["ty"], rE(r["betA"]), rE(r["betB"]), rE(r["supA"]), rE(r["supB"]), rE(r["inA"]), rE(r["inB"])))
     r = o["randReal"]
-    L.append("def randReal : RandReal :=\n  { ctorA := %s, ctorB := %s,\n    ret := %s,\n    inA := %s, inB := %s }\n"
-             % (rRE(r["ctorA"]), rRE(r["ctorB"]), rRE(r["ret"]), rRE(r["inA"]), rRE(r["inB"])))
+    L.append("def randReal : RandReal :=\n  { halvesWhenWide := %s, ctorA := %s, ctorB := %s,\n    ret := %s,\n    inA := %s, inB := %s }\n"
+             % (rBool(r["halvesWhenWide"]), rRE(r["ctorA"]), rRE(r["ctorB"]), rRE(r["ret"]), rRE(r["inA"]), rRE(r["inB"])))
     for nm in ("initInt", "initReal"):
         r = o[nm]
         L.append("def %s : InitCode :=\n  { src := .%s, elemTy := %s, viaDouble := %s }\n"
